@@ -330,6 +330,22 @@ impl<'a, 'src> Resolver<'a, 'src> {
     }
   }
 
+  /// Resolve a global the language refers to implicitly. A user declaration of the same name
+  /// is not a use of that declaration, the compiler reads the global module directly then
+  fn resolve_implicit_global(&mut self, name: &Token<'src>) {
+    let shadowed = self.tables.iter().rev().any(|table| {
+      table
+        .table
+        .get(name.str())
+        .map(|symbol| symbol.state() != SymbolState::GlobalInitialized)
+        .unwrap_or(false)
+    });
+
+    if !shadowed {
+      self.resolve_variable(name);
+    }
+  }
+
   /// Define a variable
   fn define_variable(&mut self, name: &Token<'src>) {
     let scope_depth = self.tables.len();
@@ -502,7 +518,7 @@ impl<'a, 'src> Resolver<'a, 'src> {
       self.resolve_variable(&super_class.type_ref.name);
       super_class.type_ref.name.span()
     } else {
-      self.resolve_variable(&Token::new(
+      self.resolve_implicit_global(&Token::new(
         TokenKind::Identifier,
         Lexeme::Slice(OBJECT),
         class.name.start(),
@@ -744,7 +760,7 @@ impl<'a, 'src> Resolver<'a, 'src> {
     if let Some(class) = &catch.class {
       self.resolve_variable(class)
     } else {
-      self.resolve_variable(&Token::new(
+      self.resolve_implicit_global(&Token::new(
         TokenKind::Identifier,
         Lexeme::Slice(ERROR_CLASS_NAME),
         catch.name.end(),
